@@ -638,3 +638,127 @@ db_harness!(#[kani::unwind(9)]
 	assert!(unsafe { CLEAN_ALL_N } == 0 && unsafe { KILL_N } == 0, "U34.kill_logs.log_files_are_kept_for_recovery");
 	kani::cover!(q == 1, "reached");
 });
+
+// ================================================================== U30 (btree columns): the same read order for a btree-indexed column
+macro_rules! db_bt_harness {
+	($(#[$m:meta])* $name:ident, $body:expr) => {
+		#[kani::proof]
+		$(#[$m])*
+		#[kani::stub(crate::column::HashColumn::hash_key, stub_hash_key)]
+		#[kani::stub(crate::column::HashColumn::get, stub_column_get_unreachable)]
+		#[kani::stub(CommitOverlay::get_ref, stub_overlay_get_ref_unreachable)]
+		#[kani::stub(CommitOverlay::btree_get, stub_overlay_btree_get)]
+		#[kani::stub(crate::btree::BTreeTable::get, stub_btree_table_get)]
+		#[kani::stub(std::hash::RandomState::new, crate::verif_stubs::random_state_new)]
+		#[kani::stub(parking_lot::RawRwLock::lock_shared_slow, crate::verif_stubs::lock_shared_slow)]
+		#[kani::stub(parking_lot::RawRwLock::unlock_shared_slow, crate::verif_stubs::unlock_shared_slow)]
+		#[kani::stub(parking_lot::RawRwLock::lock_exclusive_slow, crate::verif_stubs::lock_exclusive_slow)]
+		#[kani::stub(parking_lot::RawRwLock::unlock_exclusive_slow, crate::verif_stubs::unlock_exclusive_slow)]
+		#[kani::stub(parking_lot::RawRwLock::lock_upgradable_slow, crate::verif_stubs::lock_upgradable_slow)]
+		#[kani::stub(parking_lot::RawRwLock::unlock_upgradable_slow, crate::verif_stubs::unlock_upgradable_slow)]
+		#[kani::stub(parking_lot::RawRwLock::upgrade_slow, crate::verif_stubs::upgrade_slow)]
+		#[kani::stub(parking_lot::RawRwLock::downgrade_slow, crate::verif_stubs::downgrade_slow)]
+		#[kani::stub(parking_lot::RawRwLock::downgrade_to_upgradable_slow, crate::verif_stubs::downgrade_to_upgradable_slow)]
+		#[kani::stub(parking_lot::RawRwLock::try_lock_shared_slow, crate::verif_stubs::try_lock_shared_slow)]
+		#[kani::stub(parking_lot::RawRwLock::try_lock_upgradable_slow, crate::verif_stubs::try_lock_upgradable_slow)]
+		#[kani::stub(parking_lot::RawRwLock::try_upgrade_slow, crate::verif_stubs::try_upgrade_slow)]
+		#[kani::stub(parking_lot::RawMutex::bump_slow, crate::verif_stubs::mutex_bump_slow)]
+		#[kani::stub(parking_lot::RawMutex::lock_slow, crate::verif_stubs::mutex_lock_slow)]
+		#[kani::stub(parking_lot::RawMutex::unlock_slow, crate::verif_stubs::mutex_unlock_slow)]
+		#[kani::stub(parking_lot::Condvar::notify_one_slow, crate::verif_stubs::condvar_notify_one_slow)]
+		#[kani::stub(parking_lot::Condvar::notify_all_slow, crate::verif_stubs::condvar_notify_all_slow)]
+		#[kani::stub(parking_lot::Condvar::wait_until_internal, crate::verif_stubs::condvar_wait_until_internal)]
+		#[kani::stub(std::fmt::format, crate::verif_stubs::fmt_format)]
+		fn $name() {
+			$body
+		}
+	};
+}
+pub(crate) fn stub_column_get_unreachable<L: crate::log::LogQuery>(_c: &crate::column::HashColumn, _key: &Key, _log: &L) -> Result<Option<(Value, u32)>> {
+	assert!(false, "U30.hash_branch_not_reached_for_a_btree_column");
+	Ok(None)
+}
+pub(crate) fn stub_overlay_get_ref_unreachable<'a>(_o: &'a CommitOverlay, _key: &[u8]) -> Option<Option<&'a RcValue>> {
+	assert!(false, "U30.hash_branch_not_reached_for_a_btree_column");
+	None
+}
+pub(crate) static mut BK_OK: bool = true;
+// commit overlay lookup of a btree column by contract (modes as above); the user key is looked up as given (btree keys are not hashed)
+pub(crate) fn stub_overlay_btree_get<'a>(_o: &'a CommitOverlay, key: &[u8]) -> Option<Option<&'a RcValue>> {
+	unsafe {
+		OV_N += 1;
+		BK_OK = BK_OK && key.len() == 4 && key[0] == HK[0] && key[3] == HK[3];
+		match OV_MODE {
+			0 => None,
+			1 => Some(None),
+			_ => {
+				let v: &'static RcValue = Box::leak(Box::new(RcValue::from(vec![OV_VAL[0], OV_VAL[1]])));
+				Some(Some(v))
+			},
+		}
+	}
+}
+// BTreeTable::get by contract: what the tree (log overlay, then tables) holds for the key
+pub(crate) fn stub_btree_table_get<L: crate::log::LogQuery>(key: &[u8], _log: &L, _values: crate::column::TablesRef) -> Result<Option<Vec<u8>>> {
+	unsafe {
+		CG_N += 1;
+		BK_OK = BK_OK && key.len() == 4 && key[0] == HK[0] && key[3] == HK[3];
+		if CG_HIT {
+			Ok(Some(vec![CG_VAL[0], CG_VAL[1], CG_VAL[2]]))
+		} else {
+			Ok(None)
+		}
+	}
+}
+fn mk_db_one_btree_column() -> std::mem::ManuallyDrop<DbInner> {
+	let mut db = mk_db_one_hash_column();
+	let old = std::mem::replace(&mut db.columns, vec![Column::Tree(crate::btree::verif_btree_mod::mk_btree_table_empty())]);
+	std::mem::forget(old);
+	unsafe {
+		BK_OK = true;
+	}
+	db
+}
+db_bt_harness!(#[kani::unwind(5)] u30_btree_get_consults_commit_overlay_then_tree, {
+	let db = mk_db_one_btree_column();
+	let user_key: [u8; 4] = [unsafe { HK[0] }, kani::any(), kani::any(), unsafe { HK[3] }];
+	let r = ok(db.get(0, &user_key, true));
+	let (mode, hit) = unsafe { (OV_MODE, CG_HIT) };
+	assert!(unsafe { BK_OK }, "U30.btree.get.looks_up_the_key_as_given");
+	match r {
+		None => assert!(false, "U30.btree.get.no_error"),
+		Some(got) => {
+			if mode == 1 {
+				assert!(got.is_none() && unsafe { CG_N } == 0, "U30.btree.get.queued_removal_hides_stored_value");
+			} else if mode >= 2 {
+				match &got {
+					Some(v) => assert!(v.len() == 2 && v[0] == unsafe { OV_VAL[0] } && v[1] == unsafe { OV_VAL[1] }, "U30.btree.get.queued_value_wins"),
+					None => assert!(false, "U30.btree.get.queued_value_wins"),
+				}
+				assert!(unsafe { CG_N } == 0, "U30.btree.get.tree_not_consulted_when_overlay_decides");
+			} else {
+				assert!(unsafe { CG_N } == 1, "U30.btree.get.tree_consulted_exactly_once_on_overlay_miss");
+				match &got {
+					Some(v) => assert!(hit && v.len() == 3 && v[0] == unsafe { CG_VAL[0] } && v[2] == unsafe { CG_VAL[2] }, "U30.btree.get.overlay_miss_returns_the_tree_value"),
+					None => assert!(!hit, "U30.btree.get.overlay_miss_absent_iff_tree_absent"),
+				}
+			}
+			std::mem::forget(got);
+		},
+	}
+	kani::cover!(mode == 0 && hit, "reached");
+});
+db_bt_harness!(#[kani::unwind(5)] u30_btree_get_size_is_the_length_of_what_get_returns, {
+	let db = mk_db_one_btree_column();
+	let user_key: [u8; 4] = [unsafe { HK[0] }, kani::any(), kani::any(), unsafe { HK[3] }];
+	let r = ok(db.get_size(0, &user_key));
+	let (mode, hit) = unsafe { (OV_MODE, CG_HIT) };
+	match r {
+		None => assert!(false, "U30.btree.get_size.no_error"),
+		Some(got) => {
+			let want = if mode == 1 { None } else if mode >= 2 { Some(2u32) } else if hit { Some(3u32) } else { None };
+			assert!(got == want, "U30.btree.get_size.equals_length_of_the_value_get_returns");
+		},
+	}
+	kani::cover!(mode == 0 && hit, "reached");
+});
